@@ -68,6 +68,10 @@ class Driver:
 
     def ctype(self, tidx):
         t = self.T[tidx]
+        seen = 0
+        while t["is_typedef"] and t["wrapped_type"] in self.T and seen < 10:
+            t = self.T[t["wrapped_type"]]
+            seen += 1
         if t["is_atomic"]:
             return CT[t["true_name"]]
         if t["is_enum"]:
@@ -463,6 +467,8 @@ class Driver:
             for mm in c["members"]:
                 if mm["array"]:
                     self.array_member(c, mm)
+                    continue
+                if mm.get("classmember"):
                     continue
                 e = next((e for e in self.E.values() if e["scoped_name"] == mm["qname"]), None)
                 if e is None or not e["has_getter"]:
